@@ -22,7 +22,7 @@ RUNS = {"quick": 4800, "thorough": 160000}
 BUDGET = {"quick": 60, "thorough": 1500}
 RULE = ("one run = one simulated world (issuer clock, validator clock with seeded skew and 0-6 forward/backward jumps, wire "
         "delays) with 120-400 issue->deliver->validate events; claims over registered and private names with values of every "
-        "JSON type, requests over all option combinations, leeway 0..600, now implicit (time seam) or explicit; deliveries "
+        "JSON type, requests over all option combinations, leeway 0..1 year, now implicit (time seam) or explicit; deliveries "
         "placed on the decision boundaries and far away; a case = one validation; distinct = distinct (claims, request, "
         "leeway, now) tuples; non-trivial = outside the listed don't-care zones")
 ASSUMPTIONS = [
@@ -192,7 +192,7 @@ def run(rng: Rng, tier: str, index: int) -> RunResult:
         requests = {}
         for name in g.sample(NAMES, g.randrange(0, 5)):
             requests[name] = gen_request(g, name, claims)
-        leeway = g.pick([0, 0, 0, 1, 5, 30, 60, 300, 600])
+        leeway = g.pick([0, 0, 0, 1, 5, 30, 60, 300, 600, 601, 900, 3600, 86400, 31536000])
         via_jwt = g.chance(0.1) and all(isinstance(claims.get(k, 0), (int, float)) and not isinstance(claims.get(k, 0), bool) and
                                         claims.get(k, 0) == claims.get(k, 0) for k in ("exp", "nbf", "iat"))
         for _ in range(g.randrange(1, 4)):
